@@ -481,8 +481,11 @@ def apalache_stage(res, module, inv, timeout=300):
     out = os.path.join(scratch(), "apa." + module)
     t = Timer()
     try:
+        jtmp = os.path.join(scratch(), "jtmp")               # Apalache's launcher creates a java.io.tmpdir of its own and leaves it behind
+        os.makedirs(jtmp, exist_ok=True)
+        env = dict(os.environ, TMPDIR=jtmp)                  # the apalache-mc launcher does `mktemp -d -t SANY...` for java.io.tmpdir
         p = subprocess.run(["timeout", str(timeout), "apalache-mc", "check", "--init=Init", f"--inv={inv}", "--length=0", f"--out-dir={out}",
-                            os.path.join(SPEC, "mech", module + ".tla")], capture_output=True, text=True, cwd=scratch())
+                            os.path.join(SPEC, "mech", module + ".tla")], capture_output=True, text=True, cwd=scratch(), env=env)
         txt = p.stdout + p.stderr
         result = "proved (no error)" if "The outcome is: NoError" in txt else "counterexample" if "The outcome is: Error" in txt else "did not finish"
     except FileNotFoundError:
